@@ -354,6 +354,38 @@ def run(ctx):
                     res.violation("N-DTYPE", g.short, norm(b)[:100], norm(bad[0])[:40], f"`{norm(bad[0])[:40]}` may still be the raw uint8 incidence matrix here (on some path it was neither multiplied by the weights nor converted): the product / sum counts hyperedges in uint8, so a pair of nodes that shares 256 or more hyperedges (or a node with such a degree) gets its count modulo 256", loc(g, b))
         if n_prod:
             res.ok("N-DTYPE", "linalg", f"{n_prod} products / sums examined; raw-uint8 producers: {len(raw)}", "scan", "hypergraphx/linalg/linalg.py")
+    # ---- M-ROWMAP: a builder that receives (matrix, mapping) from another builder and hands a mapping back hands back THAT mapping
+    #      (or the mapping of the very object the rows were numbered from): the rows are numbered by the encoder of the hypergraph the
+    #      inner builder was given, and the encoder of another hypergraph (the parent of a sub-hypergraph) ranks the nodes differently
+    with res.guard("M-ROWMAP"):
+        res.rules["M-ROWMAP"] = "the mapping a matrix builder returns is the one its rows were numbered with (never the mapping of another hypergraph than the one the incidence was built from)"
+        lin = [g for g in ctx.prog.functions.values() if g.module.relpath == "hypergraphx/linalg/linalg.py" or g.module.relpath.startswith("hypergraphx/linalg/_")]
+        n_pairs = 0
+        for g in lin:
+            gv = ctx.view(g)
+            for a in walk_no_nested(g.node):
+                if not (isinstance(a, ast.Assign) and len(a.targets) == 1 and isinstance(a.targets[0], ast.Tuple) and len(a.targets[0].elts) == 2 and all(isinstance(e, ast.Name) for e in a.targets[0].elts) and isinstance(a.value, ast.Call)):
+                    continue
+                if not any(k.arg == "return_mapping" and isinstance(k.value, ast.Constant) and k.value.value is True for k in a.value.keywords) or not a.value.args:
+                    continue
+                n_pairs += 1
+                mname = a.targets[0].elts[1].id
+                src = norm(gv.inline(a.value.args[0], depth=2))
+                src_raw = norm(a.value.args[0])
+                others = [o for o in walk_no_nested(g.node) if isinstance(o, ast.Assign) and o is not a and any(isinstance(t, ast.Name) and t.id == mname for t in o.targets)]
+                bad = None
+                for o in others:
+                    for c in ast.walk(o.value):
+                        if isinstance(c, ast.Call) and isinstance(c.func, ast.Attribute) and c.func.attr == "get_mapping":
+                            recv = norm(gv.inline(c.func.value, depth=2))
+                            if recv != src and norm(c.func.value) != src_raw:
+                                bad = (o, c)
+                if bad:
+                    res.violation("M-ROWMAP", g.short, norm(bad[0])[:100], "same-encoder", f"the rows of `{a.targets[0].elts[0].id}` are numbered by the encoder of `{src_raw[:60]}`, but the mapping handed back is re-bound to `{norm(bad[1])[:60]}` - the mapping of another hypergraph: a node that is missing from the one ranks the later nodes differently in the other, so row i is not node mapping[i]", loc(g, bad[0]))
+                else:
+                    res.add("M-ROWMAP", g.short, norm(a)[:100], "same-encoder", "ok" if not others else "unknown", "" if not others else f"`{mname}` is re-bound later in the function", loc(g, a))
+        if n_pairs == 0:
+            res.unknown("M-ROWMAP", "linalg", "(matrix, mapping) = builder(..., return_mapping=True)", "same-encoder", "no builder receives a (matrix, mapping) pair from another builder", "hypergraphx/linalg/linalg.py")
     with res.guard("M-SHAPE"):
         check_incidence_shape(ctx, res)
     with res.guard("general lint pack over the property's files"):
